@@ -267,6 +267,7 @@ class AppTracker(object):
         self.deliveries = {}         # id -> [(t, side)]
         self.small_sent = Counter()  # payloads too short for an id: multiset by (sender side, bytes)
         self.small_delivered = Counter()
+        self.small_by_seq = {}       # (id(sending conn), message seq) -> send record of a payload too short for an id
         self.counter = 0
         self.c = world.counters
         world.deliver_hooks.append(self.on_deliver)
@@ -324,9 +325,18 @@ class AppTracker(object):
             self.small_sent.inc((side, payload))
             rec["small"] = True
             self.sends[("small", self.counter)] = rec
+            if rec.get("nmsgs") == 1:
+                self.small_by_seq[(id(conn), rec["msgseq_first"])] = rec
         self.c.inc("app_sends")
         self.c.inc("app_sends_%s_retry%d" % (side, int(retry)))
         return rec
+
+    def _sender_conn(self, side, endpoint):
+        """the connection object at the other end of the endpoint that received a message"""
+        if side == "server":
+            cl = self.world.clients_by_addr.get(endpoint.addr)
+            return cl.udp.conn if cl is not None else None
+        return self.tap.server_by_addr.get(endpoint.addr)
 
     def _small(self, length):
         # values for payloads too short to carry an id: made distinct while the space allows
@@ -345,14 +355,25 @@ class AppTracker(object):
             e.delivered_n += 1
         sender_side = "server" if side == "client" else "client"
         if pid is None:
-            key = (sender_side, payload)
-            if len(payload) >= ID_LEN or self.small_delivered.get(key, 0) + 1 > self.small_sent.get(key, 0):
-                if self.small_sent.get(key, 0) == 0:
-                    self.report("C06", "fabricated-message", "a message that was never sent was delivered to the %s application: %s" % (side, short(payload)),
-                                {"payload": short(payload, 64)})
+            # too short to carry an id: identified by (sending connection, message sequence number) - a label read
+            # from the sender at send() time - and compared byte for byte
+            sender = self._sender_conn(side, endpoint)
+            rec = self.small_by_seq.get((id(sender), int(seqnum))) if sender is not None else None
+            if rec is None or rec["payload"] != payload:
+                if len(payload) >= ID_LEN or rec is None:
+                    self.report("C06", "fabricated-message", "a message that was never sent was delivered to the %s application: %s (message seq %d)" % (
+                        side, short(payload), int(seqnum)), {"payload": short(payload, 64)})
                 else:
-                    self.report("C04", "delivered-more-often-than-sent", "short payload %s delivered more often than it was sent" % short(payload))
-            self.small_delivered.inc(key)
+                    self.report("C06", "message-corrupted", "short message seq %d delivered as %s, sent as %s" % (
+                        int(seqnum), short(payload), short(rec["payload"])))
+                return
+            rec["delivered"] = rec.get("delivered", 0) + 1
+            self.small_delivered.inc((sender_side, payload))
+            if rec["delivered"] > 1:
+                self.c.inc("double_deliveries")
+                self.report("C04", self.classify_double(conn, seqnum) or "delivered-twice",
+                            "short message %s (message seq %d, retry %d) delivered %d times to the %s application" % (
+                                short(payload), int(seqnum), rec["retry"], rec["delivered"], side))
             return
         rec = self.sends.get(pid)
         if rec is None or rec["side"] != sender_side:
@@ -367,11 +388,34 @@ class AppTracker(object):
         lst.append((w.clock.now, side, int(seqnum)))
         if len(lst) > 1:
             self.c.inc("double_deliveries")
-            self.double_delivery(rec, lst)
+            self.double_delivery(rec, lst, conn)
 
     # classification hooks (set by the property modules)
-    def double_delivery(self, rec, lst):
-        self.report("C04", "delivered-twice", lambda: "message %r (%d bytes, retry %d) delivered %d times to the %s application at t=%s" % (
+    def classify_double(self, conn, seqnum=None):
+        """known mechanism (finding): the second delivery arrived in a FRESH datagram built by the honest sender
+        (a retransmission, not a replayed/duplicated datagram) carrying a message whose sequence number was more
+        than 256 behind the receiver's newest - outside the duplicate-message window"""
+        e = self.tap.ends.get(id(conn))
+        ctx = getattr(e, "last_recv", None) if e is not None else None
+        if ctx and ctx["genuine"] and not ctx["again"] and ctx["msg_top"]:
+            # the window moves while the messages of one datagram are processed in order
+            top = ctx["msg_top"]
+            behind = {}
+            for s in ctx["msgseqs"]:
+                d = ring_diff(top, s)
+                behind.setdefault(s, d)
+                if d < 0:
+                    top = s
+            if seqnum is not None and int(seqnum) in behind:
+                if behind[int(seqnum)] > 256:
+                    return "retransmission-older-than-message-window"
+            elif any(d > 256 for d in behind.values()):
+                return "retransmission-older-than-message-window"     # the completing fragment of a fragmented message
+        return None
+
+    def double_delivery(self, rec, lst, conn=None):
+        mech = self.classify_double(conn, lst[-1][2]) if conn is not None else None
+        self.report("C04", mech or "delivered-twice", lambda: "message %r (%d bytes, retry %d) delivered %d times to the %s application at t=%s" % (
             rec["id"], rec["len"], rec["retry"], len(lst), lst[-1][1], [round(x[0] - self.world.clock.now, 3) for x in lst[:10]]))
 
     def _classify_corruption(self, rec, payload):
@@ -499,6 +543,8 @@ class RecvMonitor(object):
 
     def before_recv(self, e, datagram):
         conn = e.conn
+        e.last_recv = {"origin": self.world.origins.get(datagram, "network"), "msg_top": int(conn.bitfield_msg.current_seqnum),
+                       "again": False, "genuine": False, "msgseqs": []}
         self.before = (snapshot(conn, (e.delivered_n, e.callbacks_n)), conn.stats.dropped)
         self.dec = decode_datagram(datagram, conn.session_key_bytes)
         self.key_before = conn.session_key_bytes
@@ -521,6 +567,8 @@ class RecvMonitor(object):
             self.c.inc("recv_genuine_undecodable")
             return
         self.c.inc("recv_genuine")
+        e.last_recv["genuine"] = True
+        e.last_recv["msgseqs"] = [m[0] for m in dec.msgs]
         if res and snap0 != snap1:
             self.c.inc("recv_genuine_changed_state")
         u = e.unwrap_peer(dec.seq)
@@ -532,6 +580,12 @@ class RecvMonitor(object):
                 self.report("C08", "duplicate-not-flagged", "datagram seq %d accepted although it was accepted before and is inside the 32-window" % dec.seq)
             if was:
                 self.c.inc("recv_accepted_again")
+                e.last_recv["again"] = True
+                behind = e.acc_top - u
+                self.report("C04", "old-datagram-accepted-again" if not in_window else "duplicate-accepted-inside-window",
+                            "a copy of datagram seq %d that was accepted before (%d datagrams behind the newest, origin %s) was accepted again; changed %s" % (
+                                dec.seq, behind, self.world.origins.get(datagram, "network"), snap_diff(snap0, snap1)),
+                            {"behind": behind})
                 self.tap.fan("accepted_again", e, datagram, dec, u, in_window, snap0, snap1)
             e.acc.add(u)
             if e.acc_top is None or u > e.acc_top:
@@ -542,7 +596,14 @@ class RecvMonitor(object):
             self.tap.fan("accepted", e, dec, u)
         else:
             self.c.inc("recv_rejected")
-            if not was:
+            if not was and e.acc_top is not None and u < e.acc_top - 32:
+                # never accepted, but older than the window: it can neither be checked nor acked; dropping it
+                # whole is not a duplicate verdict (C08 is silent outside the window)
+                self.c.inc("recv_rejected_older_than_window")
+                if snap0 != snap1:
+                    self.report("C04", "stale-datagram-has-effect", "datagram seq %d older than the window was rejected but changed %s" % (
+                        dec.seq, snap_diff(snap0, snap1)))
+            elif not was:
                 self.report("C08", "false-duplicate", "genuine datagram seq %d (type %s) rejected although it was never accepted (window top %s)" % (
                     dec.seq, PKT_NAMES.get(dec.ptype), ring(e.acc_top) if e.acc_top else None))
             else:
